@@ -73,7 +73,7 @@ func c08Candidates(c *Ctx, rule string, find *ssa.Function) {
 				}
 				for _, dc := range conds {
 					call, pol := condCall(dc)
-					if call == nil || !pol || !CalleeIs(call, serverPath, "compareAddr") {
+					if call == nil || !pol || !isCompareAddr(c.P, call.Call.StaticCallee()) {
 						continue
 					}
 					a := call.Call.Args
@@ -265,4 +265,9 @@ func c08ReadKeepsRemainder(c *Ctx) {
 		}
 	}
 	c.Check(n >= 2, "read-drops-only-copied", "buffer-serving Read methods found", "-", fmt.Sprint(n), "expected the datagram pseudo-connection and the peek connection to serve Read from a held buffer")
+}
+
+// isCompareAddr: f is the server's address-compatibility predicate (found by name, or – after a rename – by its signature).
+func isCompareAddr(p *Program, f *ssa.Function) bool {
+	return f != nil && f == p.Func("server", "compareAddr")
 }
